@@ -24,30 +24,33 @@ import (
 func main() { common.Main("C15", runC15) }
 
 type c15case struct {
-	ID     int    `json:"id"`
-	UID    bool   `json:"uid_search"`
-	Box    string `json:"box"`
-	Class  string `json:"view_class"`
-	N      int    `json:"view_size"`
-	Keys   string `json:"keys"`
-	Obs    string `json:"obs"`
-	Want   string `json:"want"`
-	Judged bool   `json:"judged"`
-	keys   []*key
-	obsK   string
-	obsS   []int
-	epoch  int
+	ID      int    `json:"id"`
+	UID     bool   `json:"uid_search"`
+	Box     string `json:"box"`
+	Class   string `json:"view_class"`
+	N       int    `json:"view_size"`
+	Keys    string `json:"keys"`
+	Obs     string `json:"obs"`
+	Want    string `json:"want"`
+	Judged  bool   `json:"judged"`
+	Charset string `json:"charset"`
+	coqKeys string
+	keys    []*key
+	obsK    string
+	obsS    []int
+	epoch   int
 }
 
 type harness struct {
-	ctx    *common.Ctx
-	s      *srv.Server
-	rng    *common.Rng
-	cases  []*c15case
-	epochs []string // Coq definitions of the views, by epoch
-	nextID int
-	base   date
-	tagN   int
+	ctx     *common.Ctx
+	s       *srv.Server
+	rng     *common.Rng
+	cases   []*c15case
+	epochs  []string // Coq definitions of the views, by epoch
+	nextID  int
+	base    date
+	tagN    int
+	charset string // the CHARSET of the command whose keys are being generated
 }
 
 func bi(x int64) *big.Int { return big.NewInt(x) }
@@ -61,12 +64,38 @@ func (h *harness) pickMsg(v *view) *message {
 	return v.Msgs[h.rng.Pick(len(v.Msgs))]
 }
 
-var reWord = regexp.MustCompile(`[A-Za-z0-9.@-]+`)
+var reWord = regexp.MustCompile(`[\p{L}0-9.@-]+`)
 
-// needle drawn from the given text: a word, part of a word, or one of the phrases; sometimes something absent
+func isASCII(s string) bool {
+	for _, c := range []byte(s) {
+		if c >= 0x80 {
+			return false
+		}
+	}
+	return true
+}
+
+// pickCharset: the CHARSET of the next SEARCH command
+func (h *harness) pickCharset() string {
+	switch x := h.rng.Pick(100); {
+	case x < 50:
+		return ""
+	case x < 60:
+		return []string{"UTF-8", "utf-8"}[h.rng.Pick(2)]
+	case x < 64:
+		return "US-ASCII"
+	default:
+		return []string{"ISO-8859-1", "iso-8859-1", "windows-1252", "ISO-8859-15", "KOI8-R"}[h.rng.Pick(5)]
+	}
+}
+
+// needle drawn from the given text: a word, part of a word, or one of the phrases; sometimes something absent.
+// Only text that the charset of the command (h.charset) can express is returned; words outside ASCII are preferred
+// when the charset is an 8-bit one.
 func (h *harness) needle(text string) string {
 	rng := h.rng
-	if rng.Chance(0.2) {
+	ok := func(s string) bool { _, e := encodeFor(h.charset, s); return e }
+	if rng.Chance(0.15) {
 		return []string{"zulu", "xyzzy", "nomatch", "alphaa", "brown quick"}[rng.Pick(5)]
 	}
 	if rng.Chance(0.2) {
@@ -76,15 +105,38 @@ func (h *harness) needle(text string) string {
 			}
 		}
 	}
-	ws := reWord.FindAllString(text, -1)
-	if len(ws) == 0 {
-		return randCase(rng, words[rng.Pick(len(words))])
+	var ws, wide []string
+	for _, w := range reWord.FindAllString(text, -1) {
+		if !ok(w) {
+			continue
+		}
+		ws = append(ws, w)
+		if !isASCII(w) {
+			wide = append(wide, w)
+		}
+	}
+	if rng.Chance(0.08) || len(ws) == 0 { // a word with characters outside ASCII that may or may not be in the text
+		var c []string
+		for _, w := range nonASCIIWords() {
+			if ok(w) {
+				c = append(c, w)
+			}
+		}
+		if len(c) > 0 && (len(ws) == 0 || h.charset != "US-ASCII") && rng.Chance(0.7) {
+			return randCase(rng, c[rng.Pick(len(c))])
+		}
+		if len(ws) == 0 {
+			return randCase(rng, words[rng.Pick(len(words))])
+		}
 	}
 	w := ws[rng.Pick(len(ws))]
-	if len(w) > 3 && rng.Chance(0.35) {
-		a := rng.Range(0, len(w)-2)
-		b := rng.Range(a+2, len(w))
-		w = w[a:b]
+	if len(wide) > 0 && rng.Chance(0.6) {
+		w = wide[rng.Pick(len(wide))]
+	}
+	if r := []rune(w); len(r) > 3 && rng.Chance(0.35) {
+		a := rng.Range(0, len(r)-2)
+		b := rng.Range(a+2, len(r))
+		w = string(r[a:b])
 	}
 	return randCase(rng, w)
 }
@@ -193,6 +245,9 @@ func (h *harness) genLeaf(v *view) *key {
 				text = m.Body
 			case "TEXT":
 				text = string(m.Lit)
+				if m.Sent0 != nil { // not from the header gluon puts in front (its value differs from run to run)
+					text = string(m.Sent0)
+				}
 			default:
 				text = m.first(k.Kind)
 			}
@@ -294,7 +349,7 @@ func (h *harness) genKeys(v *view) []*key {
 // ---------- talking to the server ----------
 
 func sendSearch(c *imapc.Client, uid bool, charset string, keys []*key) (string, []int, string, error) {
-	p := &parts{}
+	p := &parts{enc: wireEncoder(charset)}
 	if uid {
 		p.text("UID ")
 	}
@@ -554,13 +609,13 @@ func canonKeys(keys []*key) []*key {
 }
 
 // shrink: smaller key lists that still fail
-func (h *harness) shrink(c *imapc.Client, v *view, uid bool, keys []*key) []*key {
+func (h *harness) shrink(c *imapc.Client, v *view, uid bool, charset string, keys []*key) []*key {
 	cur := canonKeys(keys)
 	fails := func(ks []*key) bool {
 		if len(ks) == 0 {
 			return false
 		}
-		_, _, _, _, good, err := h.check(c, v, uid, "", ks)
+		_, _, _, _, good, err := h.check(c, v, uid, charset, ks)
 		return err == nil && !good
 	}
 	if !fails(cur) {
@@ -615,10 +670,15 @@ func (h *harness) shrink(c *imapc.Client, v *view, uid bool, keys []*key) []*key
 func (h *harness) runCase(c *imapc.Client, v *view, epoch int, uid bool, charset string, keys []*key, judged bool) error {
 	res := h.ctx.Res
 	h.nextID++
-	cs := &c15case{ID: h.nextID, UID: uid, Box: v.Box, Class: v.Class, N: len(v.Msgs), Keys: keysText(keys), keys: keys, epoch: epoch, Judged: judged}
+	cs := &c15case{ID: h.nextID, UID: uid, Box: v.Box, Class: v.Class, N: len(v.Msgs), Keys: keysText(keys), keys: keys, epoch: epoch, Judged: judged,
+		Charset: charset, coqKeys: keysCoq(keys, wireEncoder(charset))}
 	pfx := ""
 	if uid {
 		pfx = "UID "
+	}
+	csfx := "" // in the canonical forms the keys are shown as text (UTF-8); the charset says how they went on the wire
+	if charset != "" {
+		csfx = "CHARSET " + charset + " "
 	}
 	h.ctx.Current(fmt.Sprintf("%sSEARCH %s | view=%s n=%d", pfx, cs.Keys, v.Class, len(v.Msgs)), cs)
 	ok, os, wk, ws, good, err := h.check(c, v, uid, charset, keys)
@@ -631,20 +691,20 @@ func (h *harness) runCase(c *imapc.Client, v *view, epoch int, uid bool, charset
 		cs.Want = "(not judged)"
 	}
 	if judged && !good {
-		sk := h.shrink(c, v, uid, keys)
-		ok2, os2, wk2, ws2, good2, err := h.check(c, v, uid, "", sk)
+		sk := h.shrink(c, v, uid, charset, keys)
+		ok2, os2, wk2, ws2, good2, err := h.check(c, v, uid, charset, sk)
 		if err != nil {
 			return err
 		}
 		if good2 { // shrinking lost the failure (should not happen): report the original
 			sk, ok2, os2, wk2, ws2 = keys, ok, os, wk, ws
 		}
-		canon := fmt.Sprintf("%sSEARCH %s | view=%s n=%d -> %s want %s", pfx, keysText(sk), v.Class, len(v.Msgs), render(ok2, os2), render(wk2, ws2))
+		canon := fmt.Sprintf("%sSEARCH %s%s | view=%s n=%d -> %s want %s", pfx, csfx, keysText(sk), v.Class, len(v.Msgs), render(ok2, os2), render(wk2, ws2))
 		if ok2 == "NO" || ok2 == "BAD" || ok2 == "OTHER" {
 			// the refusal does not depend on the view's content beyond its class: keep the canonical form short
-			canon = fmt.Sprintf("%sSEARCH %s | view=%s -> %s want a result", pfx, keysText(sk), v.Class, ok2)
+			canon = fmt.Sprintf("%sSEARCH %s%s | view=%s -> %s want a result", pfx, csfx, keysText(sk), v.Class, ok2)
 			if wk2 == "BAD" {
-				canon = fmt.Sprintf("%sSEARCH %s | view=%s -> %s want BAD", pfx, keysText(sk), v.Class, ok2)
+				canon = fmt.Sprintf("%sSEARCH %s%s | view=%s -> %s want BAD", pfx, csfx, keysText(sk), v.Class, ok2)
 			}
 		}
 		detail := fmt.Sprintf("sent: %sSEARCH %s ; answered %s ; the messages of the view that satisfy the keys: %s ; view:\n%s", pfx, cs.Keys, cs.Obs, cs.Want, describeView(v))
@@ -706,11 +766,10 @@ func (h *harness) newEpoch(v *view) int {
 
 func (h *harness) randomCases(c *imapc.Client, v *view, epoch int, n int) error {
 	for i := 0; i < n; i++ {
+		charset := h.pickCharset()
+		h.charset = charset
 		keys := h.genKeys(v)
-		charset := ""
-		if h.rng.Chance(0.12) {
-			charset = []string{"UTF-8", "US-ASCII", "utf-8"}[h.rng.Pick(3)]
-		}
+		h.charset = ""
 		uid := h.rng.Chance(0.4)
 		if err := h.runCase(c, v, epoch, uid, charset, keys, true); err != nil {
 			return err
@@ -758,7 +817,64 @@ func (h *harness) corpus(c *imapc.Client, v *view, epoch int) error {
 			return err
 		}
 	}
+	// every kind of string key with a key outside ASCII in every 8-bit charset that can express a word of the view:
+	// upper-cased on the wire (decode first, fold afterwards), plain and negated
+	n := 0
+	for _, charset := range []string{"ISO-8859-1", "windows-1252", "ISO-8859-15", "KOI8-R", "UTF-8"} {
+		for _, kind := range []string{"SUBJECT", "FROM", "TO", "CC", "BCC", "BODY", "TEXT", "HEADER"} {
+			w, fld := h.findWide(v, kind, charset)
+			if w == "" {
+				continue
+			}
+			k := S(kind, strings.ToUpper(w))
+			if kind == "HEADER" {
+				k = H(fld, strings.ToUpper(w))
+			}
+			k.StrForm = 1 + n%2
+			n++
+			for _, keys := range [][]*key{{k}, {N(k)}} {
+				if err := h.runCase(c, v, epoch, n%3 == 0, charset, keys, true); err != nil {
+					return err
+				}
+			}
+		}
+	}
 	return nil
+}
+
+// findWide: a word with characters outside ASCII that occurs in the part of some message the key kind looks at and that
+// the charset can express ("" if there is none); for HEADER also the field name.
+func (h *harness) findWide(v *view, kind, charset string) (string, string) {
+	for _, m := range v.Msgs {
+		texts := map[string]string{}
+		switch kind {
+		case "BODY":
+			texts[""] = m.Body
+		case "TEXT":
+			texts[""] = string(m.Lit)
+		case "HEADER":
+			for _, hf := range m.Hdrs {
+				if strings.HasPrefix(strings.ToLower(hf.Name), "x-") || strings.EqualFold(hf.Name, "subject") {
+					texts[hf.Name] = hf.Value
+				}
+			}
+		default:
+			texts[""] = m.first(kind)
+		}
+		var names []string
+		for n := range texts {
+			names = append(names, n)
+		}
+		sort.Strings(names)
+		for _, n := range names {
+			for _, w := range reWord.FindAllString(texts[n], -1) {
+				if _, ok := encodeFor(charset, w); ok && !isASCII(w) {
+					return w, n
+				}
+			}
+		}
+	}
+	return "", ""
 }
 
 // ---------- scenario ----------
@@ -881,6 +997,11 @@ func runC15(ctx *common.Ctx) error {
 		if err := h.randomStores(a, va, 3); err != nil {
 			return err
 		}
+		// nothing may be marked \\Deleted at this point: the other session's EXPUNGE below has to remove exactly its three
+		r, err = a.Cmd("STORE 1:* -FLAGS.SILENT (\\Deleted)")
+		if e := must(r, err, "clear deleted"); e != nil {
+			return e
+		}
 		if err := refresh(a, va, pool); err != nil {
 			return err
 		}
@@ -994,7 +1115,7 @@ func runC15(ctx *common.Ctx) error {
 		case "NO":
 			obs = "ONo"
 		}
-		lines = append(lines, fmt.Sprintf("mkCase %d %s view_%d %s (%s)", cs.ID, common.CoqBool(cs.UID), cs.epoch, keysCoq(cs.keys), obs))
+		lines = append(lines, fmt.Sprintf("mkCase %d %s %s view_%d %s (%s)", cs.ID, common.CoqBool(cs.UID), charsetCoq[cs.Charset], cs.epoch, cs.coqKeys, obs))
 	}
 	res.ModelCases = len(lines)
 	return common.WriteCases(ctx.Out, "Run.RunC15", "case", lines, extra.String())
